@@ -227,7 +227,8 @@ type Session struct {
 	closed          bool
 	mailUTF8        bool
 	stallAfterWrite int64
-	lastAuth        bool // the previous command was an AUTH exchange
+	lastAuth        bool   // the previous command was an AUTH exchange
+	lastAuthResp    string // the last SASL response line received (EchoOnCancel)
 	curLine         string
 }
 
@@ -568,7 +569,15 @@ func (s *Session) handle(line string) bool {
 		// theirs to judge.
 		cmdSeq := s.ev(Event{Kind: "cmd", Verb: "*", Line: line})
 		s.obs("auth-cancel-after-final-reply", line)
+		if s.srv.Cfg.Auth.EchoOnCancel && s.lastAuthResp != "" {
+			return s.replyRaw(cmdSeq, "*", 0, 334, s.lastAuthResp)
+		}
 		return s.reply(cmdSeq, "*", 0, Action{}, 500, "", "command unrecognized")
+	}
+	if c.Verb == "" && line != "*" && s.srv.Cfg.Auth.EchoOnCancel {
+		// not a command: a SASL response that strayed past the end of the exchange
+		s.lastAuthResp = line
+		s.lastAuth = afterAuth
 	}
 	cmdSeq := s.ev(Event{Kind: "cmd", Verb: c.Verb, Line: line, Cmd: &c, Ext: strings.Join(s.ext, ",")})
 	for _, sx := range c.Syntax {
@@ -972,6 +981,11 @@ func (s *Session) handleAuth(cmdSeq int, c Cmd, line string) bool {
 		}
 	}
 	lastSeq := cmdSeq
+	lastResp := ""
+	if len(f) >= 2 {
+		lastResp = f[1]
+	}
+	s.lastAuthResp = lastResp
 	for step := 0; ; step++ {
 		out := m.Step(resp, hasResp)
 		if out.Note != "" {
@@ -1014,6 +1028,15 @@ func (s *Session) handleAuth(cmdSeq int, c Cmd, line string) bool {
 			return false
 		}
 		lastSeq = s.ev(Event{Kind: "cmd", Verb: "AUTHRESP", Line: rl})
+		if rl != "*" {
+			lastResp = rl
+			s.lastAuthResp = rl
+		}
+		if rl == "*" && s.srv.Cfg.Auth.EchoOnCancel && lastResp != "" {
+			s.ev(Event{Kind: "auth", Verb: mech, Text: "cancelled by client, not honoured"})
+			m.Cancelled()
+			return s.replyRaw(lastSeq, "AUTHRESP", rn, 334, lastResp)
+		}
 		if rl == "*" {
 			s.ev(Event{Kind: "auth", Verb: mech, Text: "cancelled by client"})
 			m.Cancelled()
